@@ -574,6 +574,23 @@ func runC10(r *evid.Run) {
 			cases = append(cases, c10Case{Tree: t, Include: l}, c10Case{Tree: t, Exclude: l})
 		}
 	}
+	// an excluded directory with TWO exceptions, one with a wildcard in a middle component and one literal, in both
+	// orders (round 12: whether directories may be pruned must not depend on which exception comes last)
+	{
+		exc := []string{"!a/*/c", "!a/*", "!*/b/c", "!a/b", "!a/b/c", "!a/bc", "!a/?/c", "!a/b/**", "!a/*/c/b"}
+		for _, base := range []string{"a", "a/b", "*"} {
+			for _, e1 := range exc {
+				for _, e2 := range exc {
+					if e1 == e2 {
+						continue
+					}
+					for _, t := range trees {
+						cases = append(cases, c10Case{Tree: t, Exclude: []string{base, e1, e2}})
+					}
+				}
+			}
+		}
+	}
 	// the filter on top of a composite of sub-roots: lists that prune one sub-root, map functions that skip one
 	{
 		multi := c11MultiTree()
